@@ -149,29 +149,41 @@ private theorem getCol_fixed {T : Table} {L : Layout} (h : WF T L) (r : Case × 
 
 /-! ### values -/
 
-private theorem clean_num (q : Rat) (h : q ≠ -999) : cleanTok (.num q) = .fin q := by
-  simp [cleanTok, h]
+/-- a number that is none of the missing-value encodings (not -999, not above 1e30) reads as itself -/
+private theorem clean_num (q : Rat) (h : numOK q) : cleanTok (.num q) = .fin q := by
+  have h2 : ¬ big < q := Rat.not_lt.2 h.2
+  simp [cleanTok, h.1, h2]
 
-private theorem clean_render (v : XR) (m : Tok) (hv : v ≠ .fin (-999)) (hm : isMissTok m) :
+/-- the tokens the spec calls missing-value tokens are exactly those the reader cleans to NaN -/
+theorem isMissTok_iff (t : Tok) : isMissTok t ↔ cleanTok t = .nan := by
+  cases t with
+  | num q =>
+    show (q = -999 ∨ big < q) ↔ (if q = -999 ∨ big < q then XR.nan else XR.fin q) = XR.nan
+    constructor
+    · intro h; rw [if_pos h]
+    · intro h; by_contra hn; rw [if_neg hn] at h; cases h
+  | nan => simp [isMissTok, cleanTok]
+  | inf => simp [isMissTok, cleanTok]
+  | ninf => simp [isMissTok, cleanTok]
+  | bad s => simp [isMissTok, cleanTok]
+
+private theorem clean_render (v : XR) (m : Tok) (hv : valOK v) (hm : isMissTok m) :
     cleanTok (renderVal v m) = v := by
   cases v with
-  | fin q =>
-    have : q ≠ -999 := fun e => hv (by rw [e])
-    simp [renderVal, cleanTok, this]
-  | pinf => rfl
+  | fin q => exact clean_num q hv
+  | pinf => exact absurd hv (by simp [valOK])
   | ninf => rfl
-  | nan => exact hm
+  | nan => exact (isMissTok_iff m).1 hm
 
 /-- a metadata cell reads as its value; a missing-value token reads as the default 0 -/
-private theorem clean_meta (o : Option Rat) (m : Tok) (ho : o ≠ some (-999)) (hm : isMissTok m) :
+private theorem clean_meta (o : Option Rat) (m : Tok) (ho : metaOK o) (hm : isMissTok m) :
     nz (cleanTok (metaTok o m)) = metaVal o := by
   cases o with
   | none =>
-    have : cleanTok m = .nan := hm
+    have : cleanTok m = .nan := (isMissTok_iff m).1 hm
     simp [metaTok, metaVal, this, nz, XR.isNan]
   | some q =>
-    have : q ≠ -999 := fun e => ho (by rw [e])
-    simp [metaTok, metaVal, cleanTok, this, nz, XR.isNan]
+    simp [metaTok, metaVal, clean_num q ho, nz, XR.isNan]
 
 /-! ### one rendered data row -/
 
@@ -192,9 +204,20 @@ private theorem rowTime_render :
   by_cases hd : Col.date ∈ L.cols
   · rw [if_pos hd] at ht
     obtain ⟨ut, hu, hpos, hrest⟩ := ht
-    have hne : ((L.dateOf r.1 : Nat) : Rat) ≠ -999 := by
-      have : (0 : Rat) ≤ (L.dateOf r.1 : Nat) := Nat.cast_nonneg _
-      intro e; rw [e] at this; exact absurd this (by decide)
+    have hne : numOK ((L.dateOf r.1 : Nat) : Rat) := by
+      refine ⟨?_, ?_⟩
+      · have : (0 : Rat) ≤ (L.dateOf r.1 : Nat) := Nat.cast_nonneg _
+        intro e; rw [e] at this; exact absurd this (by decide)
+      · -- a valid date has a year ≤ 9999: far below 1e30
+        have hv : L.dateOf r.1 < 100000000 := by
+          unfold Cal.unixOfDate at hu
+          by_cases hy : Cal.validYMD (L.dateOf r.1 / 10000) (L.dateOf r.1 / 100 % 100) (L.dateOf r.1 % 100) = true
+          · simp only [Cal.validYMD, Bool.and_eq_true, decide_eq_true_eq] at hy
+            omega
+          · simp [hy] at hu
+        have : ((L.dateOf r.1 : Nat) : Rat) ≤ ((100000000 : Nat) : Rat) := by
+          exact_mod_cast hv.le
+        exact le_trans this (by unfold maxNum; norm_num)
     have hdu : dateToUnix (.fin ((L.dateOf r.1 : Nat) : Rat)) = some ut := by
       have : ¬ (L.dateOf r.1 = 0) := by omega
       simp [dateToUnix, Rat.num_natCast, Rat.den_natCast, this, hu]
@@ -1370,23 +1393,31 @@ theorem C09_classify (w : Word) (h1 : w.name.length ≤ 1 → w.sfx.isNumber = f
             · subst c3; simp
             · simp [beq_eq_false_iff_ne.2 c1, beq_eq_false_iff_ne.2 c2, beq_eq_false_iff_ne.2 c3]
 
-/-- **C04_textclean.** `_clean` yields a missing value exactly for an unparseable token, the
-missing code -999, or a NaN literal; every other token keeps its value. -/
+/-- **C04_textclean.** `_clean` yields a missing value exactly for an unparseable token, a NaN
+literal, and the two numeric missing-value encodings it shares with the NetCDF reader: -999 and
+anything above 1e30 (`inf` included); every other number keeps its value, and so does -inf. -/
 theorem C04_textclean (t : Tok) :
-    (cleanTok t = .nan ↔ (∃ s, t = .bad s) ∨ t = .num (-999) ∨ t = .nan) ∧
-    (∀ q, t = .num q → q ≠ -999 → cleanTok t = .fin q) ∧
-    (t = .inf → cleanTok t = .pinf) ∧ (t = .ninf → cleanTok t = .ninf) := by
-  refine ⟨?_, ?_, ?_, ?_⟩
-  · cases t with
-    | num q => by_cases hq : q = -999 <;> simp [cleanTok, hq]
-    | nan => simp [cleanTok]
-    | inf => simp [cleanTok]
-    | ninf => simp [cleanTok]
-    | bad s => simp [cleanTok]
-  · rintro q rfl hq; simp [cleanTok, hq]
-  · rintro rfl; rfl
+    (cleanTok t = .nan ↔ (∃ s, t = .bad s) ∨ t = .num (-999) ∨ t = .nan ∨ t = .inf ∨
+        ∃ q, t = .num q ∧ 1000000000000000019884624838656 < q) ∧
+    (∀ q, t = .num q → q ≠ -999 → q ≤ 1000000000000000019884624838656 → cleanTok t = .fin q) ∧
+    (t = .ninf → cleanTok t = .ninf) := by
+  refine ⟨?_, ?_, ?_⟩
+  · rw [← isMissTok_iff]
+    cases t with
+    | num q =>
+      show (q = -999 ∨ maxNum < q) ↔ _
+      simp only [reduceCtorEq, Tok.num.injEq, exists_false, false_or, exists_eq_left']
+      rfl
+    | nan => simp [isMissTok]
+    | inf => simp [isMissTok]
+    | ninf => simp [isMissTok]
+    | bad s => simp [isMissTok]
+  · rintro q rfl hq hb; exact clean_num q ⟨hq, hb⟩
   · rintro rfl; rfl
 
+/-- The text reader's missing-value tokens, as the SPEC lists them (`isMissTok`: not a number, nan,
+inf, -999, above 1e30), are exactly the tokens `_clean` maps to NaN — see `isMissTok_iff` above. -/
+theorem C09_missing_tokens (t : Tok) : cleanTok t = .nan ↔ isMissTok t := (isMissTok_iff t).symm
 
 /-! ## Non-vacuity: a concrete 2 × 2 × 2 table, two different layouts -/
 
@@ -1418,19 +1449,19 @@ def wFcst : Word := ⟨"fcst".toList, .bad "", .bad ""⟩
 def wP5 : Word := ⟨"p5.0".toList, .bad "", .num 5⟩
 def wP5' : Word := ⟨"p+5".toList, .bad "", .num 5⟩
 
-/-- unixtime / leadtime / location / altitude, comments in front -/
+/-- unixtime / leadtime / location / altitude, comments in front, NA / inf for missing -/
 def La : Layout where
   cols := [.unixtime, .leadtime, .location, .lat, .lon, .altitude, .fld .obs wObs, .fld .fcst wFcst,
            .fld (.thr 5) wP5]
   order := T0.rows
   dateOf := fun _ => 0
   hourOf := fun _ => 0
-  miss := fun _ _ => .bad "NA"
+  miss := fun c _ => if c.lead = 0 then .bad "NA" else .inf            -- `inf` is above 1e30: missing
   missMeta := fun _ _ => .bad "NA"
   spell := fun _ _ => ([], .bad "")
   blocks := [[.varName, .x0 []], [.other [⟨"comment".toList, .bad "", .bad ""⟩]]]
 
-/-- date + hour / offset / id / elev, columns shuffled, rows reversed, -999 for missing,
+/-- date + hour / offset / id / elev, columns shuffled, rows reversed, -999 / 9.96921e+36 for missing,
 metadata lines after the data -/
 def Lb : Layout where
   cols := [.fld .fcst wFcst, .elev, .hour, .fld (.thr 5) wP5', .id, .date, .lon, .offset,
@@ -1438,27 +1469,28 @@ def Lb : Layout where
   order := T0.rows.reverse
   dateOf := fun _ => 20120101
   hourOf := fun c => if c.time = 1325376000 then 0 else 12
-  miss := fun _ _ => .num (-999)
+  -- -999 and the NetCDF default fill value 9.96921e+36 (above 1e30) both spell "missing"
+  miss := fun c _ => if c.lead = 0 then .num (-999) else .num 9969210000000000000000000000000000000
   missMeta := fun c _ => if c.lead = 0 then .num (-999) else .nan
   spell := fun _ _ => ("x".toList, .bad "")
   blocks := [[], [], [.other [⟨"units".toList, .bad "", .bad ""⟩]], [], [], [], [], [],
              [.x0 [⟨"extra".toList, .bad "", .bad ""⟩], .varName]]
 
-private theorem row_ok (a b : Rat) (ha : a ≠ -999) (hb : b ≠ -999) (f : Field) :
-    row a b f ≠ .fin (-999) := by
-  cases f <;> simp [row, ha, hb]
-  decide +kernel
+private theorem row_ok (a b : Rat) (ha : numOK a) (hb : numOK b) (f : Field) :
+    valOK (row a b f) := by
+  cases f <;> simp only [row, valOK] <;> first | exact ha | exact hb | trivial | skip
+  exact ⟨by decide +kernel, by decide +kernel⟩
 
-private theorem rowM_ok (b : Rat) (hb : b ≠ -999) (f : Field) : rowM b f ≠ .fin (-999) := by
-  cases f <;> simp [rowM, hb]
+private theorem rowM_ok (b : Rat) (hb : numOK b) (f : Field) : valOK (rowM b f) := by
+  cases f <;> simp only [rowM, valOK] <;> first | exact hb | trivial
 
-private theorem T0_val : ∀ r ∈ T0.rows, ∀ f, r.2 f ≠ .fin (-999) := by
+private theorem T0_val : ∀ r ∈ T0.rows, ∀ f, valOK (r.2 f) := by
   intro r hr f
   simp only [T0, List.mem_cons, List.not_mem_nil, or_false] at hr
   rcases hr with rfl | rfl | rfl | rfl | rfl | rfl | rfl <;>
     first
-    | exact row_ok _ _ (by decide +kernel) (by decide +kernel) f
-    | exact rowM_ok _ (by decide +kernel) f
+    | exact row_ok _ _ ⟨by decide +kernel, by decide +kernel⟩ ⟨by decide +kernel, by decide +kernel⟩ f
+    | exact rowM_ok _ ⟨by decide +kernel, by decide +kernel⟩ f
 
 private theorem T0_cases (Q : Case → Prop) (h : ∀ c ∈ T0.rows.map (·.1), Q c) :
     ∀ r ∈ T0.rows, Q r.1 := fun r hr => h r.1 (List.mem_map_of_mem hr)
@@ -1483,20 +1515,20 @@ theorem wfa : WF T0 La where
   one_id := by decide +kernel
   one_elev := by decide +kernel
   time_ok := T0_cases (fun c => timeOK La c) (by
-    have e : ∀ c, timeOK La c ↔ c.time ≠ -999 := by
+    have e : ∀ c, timeOK La c ↔ numOK c.time := by
       intro c; unfold timeOK; rw [if_neg (by decide +kernel), if_pos (by decide +kernel)]
     simp only [e]; decide +kernel)
   lead_ok := T0_cases (fun c => leadOK La c) (by
-    have e : ∀ c, leadOK La c ↔ c.lead ≠ -999 := by
+    have e : ∀ c, leadOK La c ↔ numOK c.lead := by
       intro c; unfold leadOK; rw [if_pos (by decide +kernel)]
     simp only [e]; decide +kernel)
-  id_ok := T0_cases (fun c => c.loc ≠ -999) (by decide +kernel)
-  meta_ok := T0_cases (fun c => (T0.station c.loc).lat ≠ some (-999) ∧
-    (T0.station c.loc).lon ≠ some (-999) ∧ (T0.station c.loc).elev ≠ some (-999)) (by decide +kernel)
-  missMeta_ok := fun _ _ => rfl
+  id_ok := T0_cases (fun c => numOK c.loc) (by decide +kernel)
+  meta_ok := T0_cases (fun c => metaOK (T0.station c.loc).lat ∧
+    metaOK (T0.station c.loc).lon ∧ metaOK (T0.station c.loc).elev) (by decide +kernel)
+  missMeta_ok := fun _ _ => trivial
   loc_inj := fun hi => absurd hi (by decide +kernel)
   val_ok := T0_val
-  miss_ok := fun _ _ => rfl
+  miss_ok := fun c _ => by simp only [La]; split <;> decide +kernel
   cmt_ok := by
     intro b hb c hc
     simp only [La, List.mem_cons, List.not_mem_nil, or_false] at hb
@@ -1537,16 +1569,16 @@ theorem wfb : WF T0 Lb where
     simp only [T0, List.map_cons, List.map_nil, List.mem_cons, List.not_mem_nil, or_false] at hc
     rcases hc with rfl | rfl | rfl | rfl | rfl | rfl | rfl <;> decide +kernel)
   lead_ok := T0_cases (fun c => leadOK Lb c) (by
-    have e : ∀ c, leadOK Lb c ↔ c.lead ≠ -999 := by
+    have e : ∀ c, leadOK Lb c ↔ numOK c.lead := by
       intro c; unfold leadOK; rw [if_pos (by decide +kernel)]
     simp only [e]; decide +kernel)
-  id_ok := T0_cases (fun c => c.loc ≠ -999) (by decide +kernel)
-  meta_ok := T0_cases (fun c => (T0.station c.loc).lat ≠ some (-999) ∧
-    (T0.station c.loc).lon ≠ some (-999) ∧ (T0.station c.loc).elev ≠ some (-999)) (by decide +kernel)
-  missMeta_ok := fun c _ => by simp only [isMissTok, Lb]; split <;> simp [cleanTok]
+  id_ok := T0_cases (fun c => numOK c.loc) (by decide +kernel)
+  meta_ok := T0_cases (fun c => metaOK (T0.station c.loc).lat ∧
+    metaOK (T0.station c.loc).lon ∧ metaOK (T0.station c.loc).elev) (by decide +kernel)
+  missMeta_ok := fun c _ => by simp only [Lb]; split <;> decide +kernel
   loc_inj := fun hi => absurd hi (by decide +kernel)
   val_ok := T0_val
-  miss_ok := fun _ _ => by simp [isMissTok, Lb, cleanTok]
+  miss_ok := fun c _ => by simp only [Lb]; split <;> decide +kernel
   cmt_ok := by
     intro b hb c hc
     simp only [Lb, List.mem_cons, List.not_mem_nil, or_false] at hb
